@@ -15,12 +15,12 @@ CHECKS = {
             "DESIGN.md section 3 C07"),
     "C01": ("exploration",
             "Hypothesis-generated analytic velocity fields, metrics and time steps; differential of Tracker.update against independent EF/RK2/RK4 references (one step, 1e-9 cell) + observed order of convergence vs a 64x finer reference",
-            "The real Tracker is driven with a plug-in analytic forcing (steady and time-dependent fields, dx != dy, dt 1 s..1 day, displacements up to 0.95 cell) and its one-step result compared with the scheme's prescription incl. the fractional times requested; trajectories at n, 2n, 4n steps must show order >= k-0.5; the analytic helpers get_velocity1/2/4 get the same two oracles. Part 'stock' drives Tracker + the stock ROMS Forcing + the stock ROMS Grid from generated files (fields linear in x, y, t between two frames 1-4 steps apart, metric varying by cell, subgrids, forward and reversed, optionally a current that varies with depth with particles at different depths and a quarter of the particles switched off) and applies the same one-step identity.",
+            "The real Tracker is driven with a plug-in analytic forcing (steady and time-dependent fields, dx != dy, dt 1 s..1 day, displacements up to 0.95 cell) and its one-step result compared with the scheme's prescription incl. the fractional times requested; trajectories at n, 2n, 4n steps must show order >= k-0.5; the analytic helpers get_velocity1/2/4 get the same two oracles. Part 'stock' drives Tracker + the stock ROMS Forcing + the stock ROMS Grid from generated files (fields linear in x, y, t over one to four frame intervals of 1-4 steps each, the run starting at or after the first frame, metric varying by cell, subgrids, forward and reversed, optionally a current that varies with depth with particles at different depths and a quarter of the particles switched off) and applies the same one-step identity.",
             "Uniform metric per case via a plug-in grid (the stock ROMS grid returns dx for both directions; part 'stock' takes dx of the start cell from the generated file); RK2 may be midpoint or Heun; order check is one-sided and only judged above a 1e-10 noise floor and where an independent implementation of the scheme itself shows its order at the same step counts (asymptotic regime).",
             "DESIGN.md section 3 C01"),
     "C02": ("exploration",
             "Hypothesis-generated synthetic ROMS files and positions; differential against an independent C-grid interpolator + convexity, linear-exactness and subgrid-vs-full-grid metamorphic relations",
-            "Synthetic grid/forcing files (sizes, N incl. 1, both transforms, random stretching, bathymetries, masks with garbage on land faces, f8/f4/packed storage, legal subgrids incl. negative spellings) are read by the real Grid and Forcing; velocity and scalar forcing at 24-48 positions (uniform, edges, corners, +-1 ulp, rim; depths on levels, above the surface, below the bottom) are compared with the reference, with the node range, with the closed form for linear fields, and between subgrid and full grid; the sampled frame is the first or (after five clock/forcing updates) the second, which may live in a file of its own with its own storage and packing parameters; in two fifths of the cases some particles die after the forcing was evaluated and are removed from the state (what a sparse output record does) before the velocity of the survivors is requested.",
+            "Synthetic grid/forcing files (sizes, N incl. 1, both transforms, random stretching, bathymetries, masks with garbage on land faces, f8/f4/packed storage, legal subgrids incl. negative spellings) are read by the real Grid and Forcing; velocity and scalar forcing at 24-48 positions (uniform, edges, corners, +-1 ulp, rim; depths on levels, above the surface, below the bottom) are compared with the reference, with the node range, with the closed form for linear fields, and between subgrid and full grid; the sampled frame is the first or (after five clock/forcing updates) the second, which may live in a file of its own with its own storage and packing parameters; in two fifths of the cases some particles die after the forcing was evaluated and are removed from the state (what a sparse output record does) before the velocity of the survivors is requested; in a third of the cases the vertical set-up comes from an explicit Vinfo that differs from what the file records (other transform and critical depth, stretching from parameters).",
             "At exactly half-way positions either neighbouring cell is accepted as the particle's own cell; tolerance 1e-12 (f8) / 8*2^-23 (f4, packed).",
             "DESIGN.md section 3 C02"),
     "C03": ("exploration",
@@ -30,22 +30,22 @@ CHECKS = {
             "DESIGN.md section 3 C03"),
     "C04": ("exploration",
             "Hypothesis-generated release tables and windows; differential of the State after every release step against a reference release schedule",
-            "Tables (several times x rows, mult 0..5 or absent, rows before/in/at/after the window, extra int/float/time columns as instance or particle variables, header or names, column permutations, timestamp spellings, X/Y or lon/lat, discrete or continuous, forward or reversed) are read by the real ParticleReleaser; after each timer.update(); release.update() the newly appended particles must be exactly the scheduled rows repeated mult times, in file-row order, with their positions, extras and release time. Part 'warm' runs ladim.main warm-started from a drawn file boundary of a split run with a recording release plug-in: nothing is released at the restart time, every later row / tick enters at its own step and position with the next pids.",
+            "Tables (several times x rows, mult 0..5 or absent, rows before/in/at/after the window, extra int/float/time columns as instance or particle variables, header or names, column permutations, timestamp spellings, X/Y or lon/lat, discrete or continuous, forward or reversed) are read by the real ParticleReleaser; after each timer.update(); release.update() the newly appended particles must be exactly the scheduled rows repeated mult times, in file-row order, with their positions, extras and release time; in half of the cases some particles die between releases and stay in the state. Part 'warm' runs ladim.main warm-started from a drawn file boundary of a split run with a recording release plug-in: nothing is released at the restart time, every later row / tick enters at its own step and position with the next pids.",
             "Times on the model grid, table sorted in simulation order, continuous file times on the tick grid (the property's quantifier); text->float parsing tolerance 1e-13.",
             "DESIGN.md section 3 C04"),
     "C05": ("exploration",
             "exhaustive enumeration of operation sequences up to a bound + Hypothesis-generated longer sequences against a list-of-records model; pid laws on output records of generated end-to-end runs",
-            "All sequences up to length 5 (quick) / 7 (thorough) over an 11-operation alphabet on ladim.state.State are compared with a reference model after every operation (complete within that bound); longer parametrised sequences (incl. kills by integer 0/1 array or list and assignments of arrays of another dtype) are generated; generated end-to-end runs are read back and every record checked for strictly increasing pid and pid[k] >= k.",
+            "All sequences up to length 5 (quick) / 7 (thorough) over an 11-operation alphabet on ladim.state.State are compared with a reference model after every operation (complete within that bound); longer parametrised sequences (incl. kills by integer 0/1 array or list and assignments of arrays of another dtype) are generated; generated end-to-end runs are read back and every record checked for strictly increasing pid and pid[k] >= k; the same for runs warm-started from a drawn file boundary, where in addition no new particle may get an identifier that was in use before the restart.",
             "Assigned arrays respect State's size contract (same length); the model is the reading of the property text in checks/c05.py.",
             "DESIGN.md section 3 C05"),
     "C06": ("exploration",
             "Hypothesis-generated end-to-end histories; round-trip oracle: state snapshot taken by a recording output plug-in at write time vs file read back by the documented recipe",
-            "Generated simulations (multi-file forcing, release tables incl. continuous, scripted kills, lifetimes, out-of-grid flow, time-typed and other particle variables, sparse/dense, numrec, reference times, f4/f8) are run through ladim.main; every record of every file is compared with the snapshot taken when it was written, the count/time/particle-variable structure is checked, dense files must be filled exactly where a pid is not alive. Part 'warm' applies the same comparison to a run warm-started from a drawn file boundary of a split run; a state variable may be stored packed (integer with scale_factor/add_offset).",
+            "Generated simulations (multi-file forcing, release tables incl. continuous, scripted kills, lifetimes, out-of-grid flow, time-typed and other particle variables, sparse/dense, numrec, reference times, f4/f8) are run through ladim.main; every record of every file is compared with the snapshot taken when it was written, the count/time/particle-variable structure is checked, dense files must be filled exactly where a pid is not alive. Part 'warm' applies the same comparison to a run warm-started from a drawn file boundary of a split run; a state variable may be stored packed (integer with scale_factor/add_offset, lossless) and positions packed with a scale factor (compared to half a unit of the packing); in the warm part the model time of a record must be the restart time plus its step count.",
             "The snapshot is taken in a subclass of the stock Output immediately before delegating to it; netCDF4 is trusted for reading.",
             "DESIGN.md section 3 C06"),
     "C16": ("exploration",
             "Hypothesis-generated fields/masks/positions against an independent masked-bilinear reference (sampler); generated polar-stereographic grids with round-trip and residual oracles (xy2ll/ll2xy); end-to-end lon/lat release and output",
-            "sample2D: value, convexity, exactness on bilinear fields, insensitivity to masked nodes, undefined and outside substitutes (incl. 0.0 and NaN), ValueError without substitute. Grid: ll2xy(xy2ll(p)) must return, stay inside the array and meet the solver's stopping residual and the grid-unit bound it implies. End to end: particles released by lon/lat start where the interpolated coordinates match, and lon/lat in every record equal the bilinear interpolation at that record's X, Y - also when a user's IBM asks the grid for lon/lat at the state's positions and moves the particles in place (state['X'] += ...).",
+            "sample2D: value, convexity, exactness on bilinear fields, insensitivity to masked nodes, undefined and outside substitutes (incl. 0.0 and NaN), ValueError without substitute. Grid: ll2xy(xy2ll(p)) must return, stay inside the array and meet the solver's stopping residual and the grid-unit bound it implies. End to end: particles released by lon/lat start where the interpolated coordinates match, and lon/lat in every record equal the bilinear interpolation at that record's X, Y - also when a user's IBM asks the grid for lon/lat at the state's positions and moves the particles in place (state['X'] += ...), with split output (numrec) and in the dense layout.",
             "Sphere polar-stereographic grids 160 m..20 km, up to 60 (thorough 200) cells a side, not straddling +-180.",
             "DESIGN.md section 3 C16"),
     "C08": ("fault_enumeration",
@@ -65,7 +65,7 @@ CHECKS = {
             "DESIGN.md section 3 C10"),
     "C11": ("exploration",
             "Hypothesis-generated parameters and generator seeds; statistical oracle with explicit 6.5-sigma acceptance bands + exact metamorphic scaling relations under a shared seed",
-            "Clouds of 1e4..1e5 (thorough 1e6) particles in still water on an open plug-in grid: mean, variance (= 2*D*t per unit), X-Y, X-Z, step-to-step and neighbour correlations per case; quadrupling D doubles and doubling dx halves every displacement under the same seed; D = Dz = 0 is bitwise deterministic. A third of the clouds start from a restart file with single-precision positions read by ladim.warm_start.",
+            "Clouds of 1e4..1e5 (thorough 1e6) particles in still water on an open plug-in grid: mean, variance (= 2*D*t per unit), X-Y, X-Z, step-to-step and neighbour correlations per case; quadrupling D doubles and doubling dx halves every displacement under the same seed; D = Dz = 0 is bitwise deterministic; vertical advection may be on together with vertical diffusion (a constant w shifts the cloud and leaves its spread alone). A third of the clouds start from a restart file with single-precision positions read by ladim.warm_start.",
             "False-alarm probability ~8e-11 per statistical test; Tracker.rng is replaced by a seeded generator after construction.",
             "DESIGN.md section 3 C11"),
     "C14": ("exploration",
@@ -90,7 +90,7 @@ CHECKS = {
             "DESIGN.md section 3 C18"),
     "C19": ("exploration",
             "Hypothesis-generated run lengths, periods, plug-in spellings and cold/warm starts; call-log grammar + state snapshots from recording plug-ins in every module slot",
-            "A recording module (thin subclasses of the stock Grid, Forcing, ParticleReleaser, Tracker, Output and a scripted IBM) is installed in any subset of the six slots under a generated spelling (absolute path with/without .py, relative path, bare name in the working directory with a same-named decoy on sys.path, module name on sys.path); the update calls must follow release, forcing, output, tracker, ibm once per step (plus the output-less catch-up step of a warm start), snapshots taken inside the calls must be consistent with that order, kills take effect from the next record, close is called once per module, the decoy never runs, and - plug-in files of different slots may share one file name in different directories - every logged call comes from the file configured for its slot.",
+            "A recording module (thin subclasses of the stock Grid, Forcing, ParticleReleaser, Tracker, Output and a scripted IBM) is installed in any subset of the six slots under a generated spelling (absolute path with/without .py, relative path, bare name in the working directory with a same-named decoy on sys.path, module name on sys.path); the update calls must follow release, forcing, output, tracker, ibm once per step (plus the output-less catch-up step of a warm start), snapshots taken inside the calls must be consistent with that order, kills take effect from the next record, close is called once per module, the decoy never runs, and - plug-in files of different slots may share one file name in different directories - every logged call comes from the file configured for its slot; the first release may come some steps after the start (the model steps with an empty state) and the scalar forcing value in every record must be the one of the frame in force at the record's time.",
             "Recording classes log and delegate to the stock implementation.",
             "DESIGN.md section 3 C19"),
     "C20": ("fault_enumeration",
@@ -105,7 +105,7 @@ CHECKS = {
             "DESIGN.md section 3 C12"),
     "C13": ("exploration",
             "Hypothesis-generated clocks and period spellings against integer-second reference arithmetic; malformed spellings must raise ValueError",
-            "TimeKeeper is constructed from generated start/stop/reference/dt spellings in both directions and stepped; running clock, step<->time conversions at generated (also negative) steps, CF time values and units are compared with integer arithmetic; every spelling of a period must normalise to the same duration; malformed ones must be rejected; a clock put on the start time by assignment of step and time (what the model's warm start does) must read start +- n*dt from there on, incl. its CF time value.",
+            "TimeKeeper is constructed from generated start/stop/reference/dt spellings in both directions and stepped; running clock, step<->time conversions at generated (also negative) steps, CF time values and units are compared with integer arithmetic; every spelling of a period must normalise to the same duration; malformed ones must be rejected; a clock put on the start time by assignment of step and time (what the model's warm start does) must read start +- n*dt from there on, incl. its CF time value. Part 'model': through ladim.main, cold (forward and reversed) and warm-started runs in which a recording IBM and a recording output note step and clock in every step.",
             "Units s, m, h (as documented for step2nctime).",
             "DESIGN.md section 3 C13"),
 }
